@@ -261,7 +261,7 @@ PROPS = {
     "C09": {"modules": ["Netconan.Props.C09", "Netconan.Props.SrcSecrets"], "scopes": [secret_checks.corr_scope, secret_checks.codec_scope, secret_checks.c09_scope],
             "checker_cmd": "cd lean && lake build Netconan.Props.C09 && lake env lean <#print axioms audit>", "rule": SECRET_RULE,
             "assumptions": SECRET_ASSUME},
-    "C10": text_prop("C10", [text_checks.words_scope, text_checks.hashseed_scope]),
+    "C10": dict(text_prop("C10", [text_checks.words_scope, text_checks.hashseed_scope]), modules=["Netconan.Props.C10", "Netconan.Props.SrcWords"]),
     "C11": dict(text_prop("C11", [text_checks.as_scope]), modules=["Netconan.Props.C11", "Netconan.Props.SrcAs"]),
     "C12": text_prop("C12", [text_checks.pipeline_corr, text_checks.structure_scope, text_checks.order_scope, iptext_checks.long_line_scope, files_checks.files_scope, ip_scenarios.scenario_scope]),
     "C13": text_prop("C13", [text_checks.pipeline_corr, text_checks.determinism_scope, text_checks.hashseed_scope]),
